@@ -7,8 +7,8 @@ META = {
             "its (live) type allows; P(T): every primitive type at its width; the reference side is RefDec on the "
             "PINNED layout. A path is non-trivial when the reference outcome was computed and compared.",
     "bounds": {
-        "quick": "all 102 primitive types; every structure shape of a seed-rotated fifth of the structure types; "
-                 "all command/response shapes (0-3 sessions, encrypted first parameter, failed responses) of 14 "
+        "quick": "all 102 primitive types; every generated shape of ALL structure types and of a seed-rotated sixth of the 468 command/response areas; the encrypted-parameter shapes of all 117 command codes; "
+                 "all command/response shapes (0-3 sessions, decrypt/encrypt on any session, failed and bad-tag responses) of 9 "
                  "seed-rotated command codes plus a fixed core (Startup, GetRandom, CreatePrimary, GetCapability, "
                  "NV_Read, PCR_Read, StartAuthSession)",
         "thorough": "every generated shape of all structure types and all 117 command codes",
